@@ -144,7 +144,10 @@ class LineScheduler:
                     self.finished[tid] = True
                     self.cv.notify_all()
 
-        threads = {t: threading.Thread(target=runner, args=(t,), daemon=True) for t in tids}
+        # StoreGuard.tla ThreadNaming: threads are told apart by identity, their names carry no meaning - every second
+        # schedule runs with all threads sharing one name
+        shared = (sum(schedule) + len(schedule)) % 2 == 1
+        threads = {t: threading.Thread(target=runner, args=(t,), daemon=True, **({'name': 'worker'} if shared else {})) for t in tids}
         for t in tids:
             threads[t].start()
         # wait for every thread to arrive at its first gate (or finish)
@@ -321,7 +324,8 @@ def run_script(script, tmp) -> list[dict]:
             except Exception:
                 done.put('failed')
 
-    ths = {t: threading.Thread(target=worker, args=(t,)) for t in (1, 2)}
+    shared = len(script) % 2 == 1   # StoreGuard.tla ThreadNaming: every second script runs with both threads sharing one name
+    ths = {t: threading.Thread(target=worker, args=(t,), **({'name': 'worker'} if shared else {})) for t in (1, 2)}
     for th in ths.values():
         th.start()
     try:
